@@ -20,7 +20,7 @@ mkdir -p "$CARGO_TARGET_DIR"
   [ -x "$CARGO_TARGET_DIR/debug/pq-cex" ] && cp "$CARGO_TARGET_DIR/debug/pq-cex" "$WORK/pq-cex"
 ) 9> "$CARGO_TARGET_DIR/.pq-cex.lock"
 [ -x "$WORK/pq-cex" ] || { echo "pq-cex does not build against $REPO"; exit 3; }
-RUST_BACKTRACE=0 timeout ${PQ_CEX_TIMEOUT:-120} "$WORK/pq-cex" "$@" 2>&1 | tail -80
+RUST_BACKTRACE=0 timeout ${PQ_CEX_TIMEOUT:-120} "$WORK/pq-cex" "$@" 2>&1 | tail -n 400
 rc=${PIPESTATUS[0]}
 if [ $rc -ne 0 ] && [ $rc -ne 1 ]; then echo "the program ended with status $rc (124 = search budget exhausted)"; fi
 exit $rc
